@@ -4,8 +4,10 @@ from vlib import core, cluster, netrunner
 from vlib.runner import Failure
 
 PID = "C04"
-LEAN_MODULE = "NunVerif.Props.C04Wire"
+LEAN_MODULE = "NunVerif.Props.C04Data"
 THEOREMS = ["Nun.C04_replicas_agree_on_writes", "Nun.setValue_agree", "Nun.C04_finding_remove_depends_on_persistence", "Nun.C04_same_messages_same_state", "Nun.C04_fanout_reaches_every_secondary", "Nun.C14_secondary_never_fans_out", "Nun.C14_fanout_bounded",
+            "Nun.C04_data_commands_converge", "Nun.C04_data_quiescent_agreement", "Nun.good_op", "Nun.setValue_agreeS", "Nun.incValue_agreeS", "Nun.removeValue_agreeS",
+            "Nun.primary_remove_emits", "Nun.primary_inc_emits", "Nun.secondary_applies_remove", "Nun.secondary_applies_inc", "Nun.envelope_frame",
             "Nun.C04_writes_converge", "Nun.C04_quiescent_agreement", "Nun.C04_write_end_to_end", "Nun.good_write", "Nun.primary_set_emits", "Nun.secondary_applies_set",
             "Nun.parse_replicateMsg", "Nun.parse_replicateRemoveMsg", "Nun.parse_replicateIncMsg", "Nun.parse_rpLine", "Nun.Bytes.parseI32_ofInt", "Nun.Bytes.parseU64_ofNat",
             "Nun.C04_finding_terminator_in_last_field", "Nun.C04_fanout_is_one_critical_section", "Nun.C04_forward_is_one_critical_section"]
